@@ -222,6 +222,9 @@ def _getTextType(text, log=None):
     """Check if given text is XML (**naive test!**)
     used if no content-type given
     """
+    if isinstance(text, bytes):
+        # ASCII compatible encoding assumed for sniffing
+        text = text.decode('latin-1')
     if text[:30].find('<?xml version=') != -1:
         return _XML_APPLICATION_TYPE
     else:
@@ -298,10 +301,10 @@ def getMetaInfo(text, log=None):
     """
     p = _MetaHTMLParser()
 
-    try:
-        p.feed(text)
-    except html.parser.HTMLParseError:
-        pass
+    if isinstance(text, bytes):
+        # ASCII compatible encoding assumed for sniffing
+        text = text.decode('latin-1')
+    p.feed(text)
 
     if p.content_type:
         m = Message()
@@ -342,6 +345,9 @@ def detectXMLEncoding(fp, log=None, includeDefault=True):  # noqa: C901
         - if BOM and xml declaration fail, utf-8 is returned according
           to XML 1.0.
     """
+    if isinstance(fp, bytes):
+        # keeps byte values for BOM detection and xml declaration is ASCII
+        fp = fp.decode('latin-1')
     if isinstance(fp, str):
         fp = io.StringIO(fp)
 
